@@ -908,7 +908,10 @@ class Gen:
                 self.f = saved
         plain = not grouped and not q.distinct and not any(p[0][0] == "star" for p in q.projs)
         allcols = [("col", s2.alias, c2[0], c2[1], s2.alias) for s2 in scope for c2 in s2.cols]
-        if top and plain and f["qualify"] and self.chance(0.2):
+        # (a window in the projection next to QUALIFY ROW_NUMBER() makes the result depend on how ties between identical
+        #  rows are broken: which of them survives the filter decides which running value is shown)
+        proj_has_window = any(x[0] == "win" for p in q.projs if isinstance(p[0], tuple) for x in walk_expr(p[0]))
+        if top and plain and f["qualify"] and not proj_has_window and self.chance(0.2):
             def wpred():
                 part = [c for c in [self.colref(scope, INT)] if c is not None and self.chance(0.8)]
                 worder = [(c, self.chance(0.3), self.pick(["first", "last"])) for c in allcols]
@@ -929,7 +932,7 @@ class Gen:
                 qp = ("bin", "AND", qp, self.cmp_expr(scope, 1))
             q.qualify = qp
             self.tags.add("win:qualify")
-        elif top and plain and f["distinct_on"] and self.chance(0.2) and not any(
+        elif top and plain and f["distinct_on"] and self.chance(0.2) and not proj_has_window and not any(
                 isinstance(p[0], tuple) and p[0][0] in ("win", "scalar") for p in q.projs):
             key = self.colref(scope, INT)
             if key is not None:
